@@ -96,6 +96,17 @@ def support(pre, fock):
     return int(nz[-1]) + 1 if len(nz) else 0
 
 
+def support_exact(pre, fock):
+    """As `support`, but every level that holds anything at all counts (rounding dust included):
+    the library sizes a Fock space by exact non-zero tests, which is the conservative reading of C10."""
+    r, d = _reduced(pre, [fock])
+    if r is None:
+        return None
+    a = np.abs(np.asarray(r)) != 0
+    nz = np.where(a.any(axis=0) | a.any(axis=1))[0]
+    return int(nz[-1]) + 1 if len(nz) else 0
+
+
 def get_op(world, r):
     """Return (Operation, spec); constructs it on demand (and records user arrays)."""
     name = r["op"]
@@ -238,7 +249,10 @@ def _applicable(world, pre, r, do):
             if cs and pre.sub[cs[0]]["dims"] != spec["d"]:
                 return False, "custom-dims"
         if spec["t"] == "F.Custom":
-            s = support(pre, on[0])
+            # a user operator smaller than the current cut-off fits only if the levels beyond it hold
+            # exactly nothing: with rounding dust there the library keeps the cut-off (C10) and the
+            # request is not a valid one
+            s = support_exact(pre, on[0]) if pre.sub[on[0]]["dims"] > spec["d"] else support(pre, on[0])
             if s is None or s > spec["d"]:
                 return False, "custom-too-small"
         if not specs.is_unitary_spec(spec):
@@ -515,7 +529,9 @@ def _execute(world, pre, r, do):
         subs = [world.sub(n) for n in r["on"]]
         entry = r["entry"]
         kw = {"identity_check": False} if r.get("idc") is False else {}
-        if entry == "state":
+        if entry == "state" and r.get("style") == "pos":
+            ret = subs[0].apply_kraus(arrs, r.get("idc") is not False)
+        elif entry == "state":
             ret = subs[0].apply_kraus(arrs, **kw)
         elif entry == "env":
             ret = world.envs[r["env"]].apply_kraus(arrs, *subs)
@@ -531,18 +547,31 @@ def _execute(world, pre, r, do):
         subs = [world.sub(n) for n in r["on"]]
         entry = r["entry"]
         destr = bool(r.get("destr", True))
-        if entry == "state":
-            ret = subs[0].measure_POVM(arrs, destructive=destr, partial=bool(r.get("partial", False)))
+        partial = bool(r.get("partial", False))
+        style = r.get("style", "kw")
+        kwd = {"destructive": destr} if (style == "kw" or not destr) else {}
+        if entry == "state" and style == "pos":
+            ret = subs[0].measure_POVM(arrs, destr, partial)
+        elif entry == "state":
+            kwp = {"partial": partial} if (style == "kw" or partial) else {}
+            ret = subs[0].measure_POVM(arrs, **kwd, **kwp)
         elif entry == "env":
-            ret = world.envs[r["env"]].measure_POVM(arrs, *subs, destructive=destr)
+            ret = world.envs[r["env"]].measure_POVM(arrs, *subs, **kwd)
         else:
-            ret = world.ces[r["ce"]].measure_POVM(arrs, *subs, destructive=destr)
+            ret = world.ces[r["ce"]].measure_POVM(arrs, *subs, **kwd)
         return ExecResult("ok", ret=ret, addressed=S, info={"mats": mats})
     if do == "measure":
         subs = [world.sub(n) for n in r.get("on", [])]
         entry = r["entry"]
-        kw = {"separate_measurement": bool(r.get("sep", False)), "destructive": bool(r.get("destr", True))}
-        if entry == "state":
+        sep, destr = bool(r.get("sep", False)), bool(r.get("destr", True))
+        style = r.get("style", "kw")
+        kw = {"separate_measurement": sep, "destructive": destr}
+        if style != "kw":
+            # documented defaults left to the library
+            kw = {k: v for k, v in kw.items() if v != {"separate_measurement": False, "destructive": True}[k]}
+        if entry == "state" and style == "pos":
+            ret = subs[0].measure(sep, destr)
+        elif entry == "state":
             ret = subs[0].measure(**kw)
         elif entry == "env":
             ret = world.envs[r["env"]].measure(*subs, **kw)
@@ -752,27 +781,61 @@ def execute_fault(world, pre, r):
         dims = _dims_of(pre, on)
         D = int(np.prod(dims))
         mats = R.dilation_kraus(D, 2, int(r.get("seed", 5)))
-        if r.get("how", "scale") == "scale":
+        how = r.get("how", "scale")
+        if D == 1 and how in ("imag", "offdiag"):
+            how = "diag1"
+        if how == "scale":
             mats = [1.3 * m for m in mats]
-        else:
+        elif how == "drop":
             mats = mats[:1]
+        else:
+            # sum K^dagger K = 1 + E with a structured hermitian defect E: purely imaginary
+            # off-diagonal, real off-diagonal, or a single diagonal entry
+            eps = float(r.get("eps", 0.3))
+            rs = np.random.RandomState(int(r.get("seed", 5)))
+            g = rs.uniform(0.4, 1.0, size=(D, D)) * rs.choice([-1.0, 1.0], size=(D, D))
+            if how == "imag":
+                E = 1j * (np.triu(g, 1) - np.triu(g, 1).T)
+            elif how == "offdiag":
+                E = np.triu(g, 1) + np.triu(g, 1).T
+            else:
+                E = np.zeros((D, D))
+                j = int(r.get("seed", 5)) % D
+                E[j, j] = 1.0
+            E = eps * E / max(1.0, np.abs(np.linalg.eigvalsh(E)).max())
+            w, V = np.linalg.eigh(np.eye(D) + E)
+            M = (V * np.sqrt(np.clip(w, 0, None))) @ V.conj().T
+            if r.get("single"):
+                mats = [M]
+            else:
+                mats = [m @ M for m in mats]
         ret = call_kraus(specs.to_library_arrays(mats))
         return ExecResult("ok", ret=ret, addressed=S, info={"returned": ret})
-    if k == "kraus_wrong_shape":
+    if k in ("kraus_wrong_shape", "povm_wrong_shape"):
         dims = _dims_of(pre, on)
-        D = int(np.prod(dims)) + int(r.get("delta", 1))
+        D0 = int(np.prod(dims))
+        D = D0 + int(r.get("delta", 1))
         if D < 1:
-            D = int(np.prod(dims)) + 1
-        mats = R.dilation_kraus(D, 2, int(r.get("seed", 5)))
-        ret = call_kraus(specs.to_library_arrays(mats))
-        return ExecResult("ok", ret=ret, addressed=S, info={"returned": ret})
-    if k == "povm_wrong_shape":
-        dims = _dims_of(pre, on)
-        D = int(np.prod(dims)) + int(r.get("delta", 1))
-        if D < 1:
-            D = int(np.prod(dims)) + 1
-        mats = R.dilation_kraus(D, 2, int(r.get("seed", 5)))
-        ret = call_povm(specs.to_library_arrays(mats))
+            D = D0 + 1
+        shape = r.get("shape", "square")
+        big = R.dilation_kraus(D0 + 1, 2, int(r.get("seed", 5)))
+        if shape == "square":
+            mats = R.dilation_kraus(D, 2, int(r.get("seed", 5)))
+        elif shape == "tall":  # (D0+1) x D0: sum M^dagger M is still the D0 x D0 identity
+            mats = [m[:, :D0] for m in big]
+            w, V = np.linalg.eigh(sum(m.conj().T @ m for m in mats))
+            fixm = (V / np.sqrt(w)) @ V.conj().T
+            mats = [m @ fixm for m in mats]
+        elif shape == "wide":  # D0 x (D0+1)
+            mats = [m[:D0, :] for m in big]
+        elif shape == "mixed":  # a valid set with one operator of another size appended
+            mats = [m / np.sqrt(2) for m in R.dilation_kraus(D0, 2, int(r.get("seed", 5)))] + [np.eye(D0 + 1) / np.sqrt(2)]
+        elif shape == "vector":
+            mats = [np.ones(D0) / np.sqrt(D0)]
+        else:
+            raise ValueError(shape)
+        arrs = specs.to_library_arrays(mats)
+        ret = call_kraus(arrs) if k == "kraus_wrong_shape" else call_povm(arrs)
         return ExecResult("ok", ret=ret, addressed=S, info={"returned": ret})
     if k == "custom_op_wrong_shape":
         kind = world.kind(on[0])
